@@ -77,9 +77,10 @@ def ddmin_stim(stim, fails, budget_s=60):
     return cur
 
 
-def evaluate(mod, cfg, stim, backend="fast"):
+def evaluate(mod, cfg, stim, backend="fast", **override):
     req = mod.req(cfg) if hasattr(mod, "req") else None
     kw = mod.run_kwargs(cfg, stim) if hasattr(mod, "run_kwargs") else {}
+    kw.update(override)
     run = cc.run_core(cfg, stim, backend=backend, req=req, **kw)
     fs, classes, nontrivial = mod.oracle(run)
     return run, fs, classes, nontrivial
@@ -121,7 +122,11 @@ def run_core_shard(sh, mod):
             if tier == "quick":
                 stim = ddmin_stim(stim, fails, 45)
             # confirm on stock migen.sim
-            _, f_m, _, _ = evaluate(mod, cfg, stim, backend="migen")
+            ckw = {}
+            if hasattr(mod, "confirm_kwargs"):
+                _, f_fast, _, _ = evaluate(mod, cfg, stim)
+                ckw = mod.confirm_kwargs(cfg, stim, [f for f in col_filter_quiet(col, f_fast) if f["clause"] == clause])
+            _, f_m, _, _ = evaluate(mod, cfg, stim, backend="migen", **ckw)
             f_m = col_filter_quiet(col, f_m)
             if not any(f["clause"] == clause for f in f_m):
                 raise HarnessError("finding %s from fastsim does not reproduce on migen.sim (cfg %s)" % (clause, cc.cfg_key(cfg)))
